@@ -215,8 +215,15 @@ def run(ctx, res):
 
     # ---- DONE-ONCE -----------------------------------------------------------------
     memo = {}
-    handlers = ["nrepl::eval_code_in_namespace", "nrepl::handle_eval", "nrepl::handle_load_file",
-                "nrepl::handle_completions", "nrepl::handle_lookup"]
+    # the handlers are whatever session_worker calls to get a vector of responses (so inlining or splitting one of them
+    # changes the list, not the rule), plus eval_code_in_namespace which the eval-like handlers share
+    wk = P.require_fn("nrepl::session_worker")
+    handlers = ["nrepl::eval_code_in_namespace"]
+    for bi, t in wk.calls():
+        n = M.callee_name(t) or ""
+        if n.startswith(MOD) and n in P.funcs and "Vec<" in P.funcs[n].locals[0]["ty"] and n not in handlers:
+            handlers.append(n)
+    res.floor("DONE-ONCE", "response-producing handlers called by session_worker", len(handlers), 4)
     for h in handlers:
         P.require_fn(h)
         s = done_summary(P, h, memo)
